@@ -22,14 +22,16 @@ import (
 	"crypto/sha256"
 	"encoding/hex"
 	"errors"
+	"io"
 	"net/http"
 	"net/http/httputil"
-	"strings"
+	"slices"
 	"time"
 
 	"github.com/pquerna/cachecontrol"
 
 	"github.com/dadrus/heimdall/internal/cache"
+	"github.com/dadrus/heimdall/internal/x/hashx"
 	"github.com/dadrus/heimdall/internal/x/stringx"
 )
 
@@ -106,9 +108,27 @@ func cacheKey(req *http.Request) string {
 	hash.Write(stringx.ToBytes(req.URL.String()))
 	hash.Write(stringx.ToBytes(req.Method))
 
-	value := req.Header.Get("Authorization")
-	if len(value) != 0 {
-		hash.Write(stringx.ToBytes(strings.TrimSpace(value)))
+	// there is no support for the Vary header. So, all the request headers, which
+	// may have an influence on the response, are part of the key
+	headerNames := make([]string, 0, len(req.Header))
+	for name := range req.Header {
+		headerNames = append(headerNames, name)
+	}
+
+	slices.Sort(headerNames)
+
+	for _, name := range headerNames {
+		hashx.WriteStrings(hash, name)
+		hashx.WriteStrings(hash, req.Header[name]...)
+	}
+
+	// same applies to the body of the request, like e.g. for a POST request
+	// with the rendered payload as body
+	if req.GetBody != nil {
+		if body, err := req.GetBody(); err == nil {
+			io.Copy(hash, body) //nolint:errcheck
+			body.Close()
+		}
 	}
 
 	return hex.EncodeToString(hash.Sum(nil))
